@@ -1,5 +1,8 @@
 import Flatland.JsonUtil
 import Flatland.C18
+import Flatland.C18Multi
+import Flatland.C18Flat
+import Flatland.C18Joined
 import Flatland.Run.C04
 open Lean Flatland.J
 namespace Flatland.Run.C18
@@ -73,6 +76,50 @@ def parseJoinedOp (name : List Char) (j : Json) : Except String JoinedOp := do
   | "setflat" => return .setFlat (← parsePairs (← fld j "pairs")) name
   | o => throw s!"bad joined op {o}"
 
+/-- the pieces `JoinedString.set` loops over, for the inputs the generic model covers: a list of
+    plain values, a text (split with the element's splitter), None -/
+def joinedPieces (E : Env) (c : JoinedCfg) : Flatland.C04.Input → Option (List Native)
+  | .list xs => xs.mapM fun x => match x with | .leaf n => some n | _ => none
+  | .leaf (.str t) => some ((splitWith E.T c.sp c.sep t).map .str)
+  | .leaf .none => some []
+  | _ => none
+
+/-- the same operation in the member-type-generic model (`Flatland.C18.Joined`), when it covers it -/
+def genericOp (E : Env) (c : JoinedCfg) : JoinedOp → Option (Joined.Op SState)
+  | .set x => (joinedPieces E c x).map .setPieces
+  | .member i x => some (.member i x)
+  | .append x => some (.append x)
+  | .delete i => some (.delete i)
+  | .setFlat .. => none
+
+/-- members and flag of the generic model agree with the concrete one (or the generic model does
+    not cover the operation / both raise) -/
+def genericAgrees (E : Env) (c : JoinedCfg) (s : JoinedState) (o : JoinedOp)
+    (r : Except Flatland.C04.CRaise (JoinedState × Option Bool)) : Bool :=
+  match genericOp E c o with
+  | none => true
+  | some g =>
+    match Joined.step (Joined.scalarMember E c.member) c.prune s g, r with
+    | .ok (ms, fl), .ok (ms', fl') => decide (ms = ms') && decide (fl = fl')
+    | .error _, .error _ => true
+    | _, _ => false
+
+def runJoinedOps (E : Env) (c : JoinedCfg) : JoinedState → List JoinedOp → List Json → Bool → List Json × Bool
+  | _, [], acc, ok => (acc.reverse, ok)
+  | s, o :: rest, acc, ok =>
+    let r := c.step E s o
+    let ok := ok && genericAgrees E c s o r
+    match r with
+    | .ok (s', ret) =>
+      -- `.value` / `.u` through the loop of `str.join` (generic model) — and the recursive join of the scalar model must agree
+      let T := Joined.scalarMember E c.member
+      let v := Joined.value T c.sep s'
+      runJoinedOps E c s' rest
+        (obj [("exc", Json.null), ("ret", retJson ret), ("value", ofText v), ("u", ofText (Joined.u T c.sep s')),
+              ("members", membersJson s')] :: acc)
+        (ok && decide (v = joinedValue c s'))
+    | .error e => ((excObj (craiseName e) :: acc).reverse, ok)
+
 def runJoined (j : Json) : Except String Json := do
   let E ← envOf j
   let cj ← fld j "cfg"
@@ -80,31 +127,51 @@ def runJoined (j : Json) : Except String Json := do
                          prune := ← bfld cj "prune", member := ← parseKind (← fld cj "member") }
   let name ← cfld j "name"
   let ops ← (← afld j "ops").mapM (parseJoinedOp name)
-  let steps := runOps (fun (s : JoinedState) o => match c.step E s o with
-      | .ok (s', ret) => .ok (s', obj [("exc", Json.null), ("ret", retJson ret), ("value", ofText (joinedValue c s')),
-                                      ("members", membersJson s')])
-      | .error e => .error (craiseName e)) excObj [] ops []
-  return obj [("steps", Json.arr steps.toArray)]
+  let (steps, ok) := runJoinedOps E c [] ops [] true
+  return obj [("steps", Json.arr steps.toArray), ("spec_agrees", Json.bool ok)]
 
-def parseMultiOp (name sep : List Char) (prune : Bool) (j : Json) : Except String MultiOp := do
+def parseSlice (j : Json) : Except String Flatland.PyList.Slice := do
+  return ⟨← optOf int (fldD j "start" Json.null), ← optOf int (fldD j "stop" Json.null), ← optOf int (fldD j "step" Json.null)⟩
+
+/-- MultiValue operations (`Flatland.C18.Multi.Op`); `insertfront` / `del` are the older spellings -/
+def parseMultiOp (name sep : List Char) (prune : Bool) (j : Json) : Except String Multi.Op := do
   match (← sfld j "op") with
   | "set" => return .set (← parseInput (← fld j "x"))
-  | "member" => return .member (← nfld j "i") (← parseNative (← fld j "x"))
-  | "append" => return .append (← parseNative (← fld j "x"))
-  | "insertfront" => return .insertFront (← parseNative (← fld j "x"))
-  | "del" => return .delete (← nfld j "i")
   | "setflat" => return .setFlat (← parsePairs (← fld j "pairs")) name sep prune
+  | "member" => return .member (← ifld j "i") (← parseNative (← fld j "x"))
+  | "append" => return .append (← parseNative (← fld j "x"))
+  | "insertfront" => return .insert 0 (← parseNative (← fld j "x"))
+  | "insert" => return .insert (← ifld j "i") (← parseNative (← fld j "x"))
+  | "extend" => return .extend (← listOf parseNative (← fld j "xs"))
+  | "setitem" => return .setItem (← ifld j "i") (← parseNative (← fld j "x"))
+  | "del" => return .delItem (← ifld j "i")
+  | "pop" => return .pop (← ifld j "i")
+  | "delslice" => return .delSlice (← parseSlice (← fld j "slice"))
+  | "writeu" => return .writeU (← cfld j "x")
+  | "writevalue" => return .writeValue (← parseNative (← fld j "x"))
   | o => throw s!"bad multi op {o}"
+
+def mraiseName : Multi.MRaise → String
+  | .indexError => "IndexError"
+  | .valueError => "ValueError"
+  | .c04 e => craiseName e
+
+/-- after every step: what the call returned, the scalar view read through the getters as written,
+    every member's (value, text), `is_empty`, `bool(mv)` -/
+def multiObs (s : MultiState) (ret : Option Bool) : Json :=
+  obj [("exc", Json.null), ("ret", retJson ret),
+       ("u", match Multi.getU s with | .ok u => ofText u | .error e => Json.str (mraiseName e)),
+       ("value", match Multi.getValue s with | .ok v => ofNative v | .error e => Json.str (mraiseName e)),
+       ("members", membersJson s), ("is_empty", Json.bool (Multi.isEmpty s)), ("truth", Json.bool (Multi.truth s))]
 
 def runMulti (j : Json) : Except String Json := do
   let E ← envOf j
   let k ← parseKind (← fld j "kind")
   let name ← cfld j "name"
   let ops ← (← afld j "ops").mapM (parseMultiOp name ['_'] (← bfld j "prune"))
-  let steps := runOps (fun (s : MultiState) o => match multiStep E k s o with
-      | .ok (s', ret) => .ok (s', obj [("exc", Json.null), ("ret", retJson ret), ("u", ofText (multiU s')),
-                                      ("value", ofNative (multiValue s')), ("members", membersJson s')])
-      | .error e => .error (craiseName e)) excObj [] ops []
+  let steps := runOps (fun (s : MultiState) o => match Multi.step E k s o with
+      | .ok (s', ret) => .ok (s', multiObs s' ret)
+      | .error e => .error (mraiseName e)) excObj [] ops []
   return obj [("steps", Json.arr steps.toArray)]
 
 def parseWritable (j : Json) : Except String Writable := do
@@ -122,6 +189,10 @@ def traiseName : TRaise → String
 def readJson : Option (Native × List Char) → Json
   | some (v, u) => Json.arr #[ofNative v, ofText u]
   | none => Json.null
+
+/-- `form.flatten()` of the form with its Ref field, through the flat model's queue loop -/
+def flatJson (t : Tree) (path : List PStep) : Json :=
+  ofList (fun (p : List Char × List Char) => Json.arr #[ofText p.1, ofText p.2]) (Flatland.C18.Flat.formFlat t path)
 
 def leafStates : Option Tree → List SState
   | some (.list _ ms) => ms.filterMap fun t => match t with | .leaf _ _ st => some st | _ => none
@@ -149,7 +220,8 @@ def runRef (j : Json) : Except String Json := do
   let steps := runOps (fun (s : TState) o => match liveStep E w path s o with
       | .ok (s', ret, rd) =>
         .ok (s', obj [("exc", Json.null), ("ret", retJson ret), ("read", readJson rd),
-                      ("t", match leafStates (s'.tree.resolve path) with | [st] => stateJson st | _ => Json.null)])
+                      ("t", match leafStates (s'.tree.resolve path) with | [st] => stateJson st | _ => Json.null),
+                      ("flat", flatJson s'.tree path)])
       | .error e => .error (traiseName e)) excObj start ops []
   return obj [("steps", Json.arr steps.toArray)]
 
@@ -178,7 +250,8 @@ def runRefList (j : Json) : Except String Json := do
   let steps := runOps (fun (s : TState) o => match liveStep E w path s o with
       | .ok (s', ret, rd) =>
         .ok (s', obj [("exc", Json.null), ("ret", retJson ret), ("read", readJson rd),
-                      ("members", membersJson (leafStates (s'.tree.resolve [.name "l".toList])))])
+                      ("members", membersJson (leafStates (s'.tree.resolve [.name "l".toList]))),
+                      ("flat", flatJson s'.tree path)])
       | .error e => .error (traiseName e)) excObj start ops []
   return obj [("steps", Json.arr steps.toArray)]
 
